@@ -246,6 +246,58 @@ def time_shift_search(cs, delta=10 * 365 * 86400 * 10 ** 9):
     return None
 
 
+def panic_probe_search(case, step, limit=900):
+    """directed search for a panic: the history up to [step] (where an invariant monitor or the correspondence saw the
+    implementation leave the proved invariant / the model) followed by ONE probing line of every session about every
+    channel and nickname seen so far.  Returns a replay dict for the first probe that panics."""
+    ents = [e for e in case["entries"][:step + 1]]
+    sids, chans, nicks = [], [], []
+    for e in ents:
+        if e["k"] == "C" and e["id"] not in sids:
+            sids.append(e["id"])
+        if e["k"] == "M":
+            for w in e["data"].replace(b",", b" ").split(b" "):
+                w = w.lstrip(b":")
+                if w[:1] == b"#" and w.lower() not in [c.lower() for c in chans]:
+                    chans.append(w)
+            f = e["data"].split(b" ")
+            if f and f[0].upper() == b"NICK" and len(f) > 1 and f[1].lstrip(b":") not in nicks:
+                nicks.append(f[1].lstrip(b":"))
+    # most recent names first: the violating entry talks about them
+    chans, nicks, sids = chans[::-1][:6], nicks[::-1][:6], sids[::-1][:12]
+    last = max([e.get("id", 0) for e in ents] + [0])
+    ts = max([e.get("ts", 0) for e in ents] + [0])
+    lines = []
+    for c in chans:
+        lines += [b"TOPIC %s :probe" % c, b"TOPIC " + c, b"MODE %s +i" % c, b"MODE " + c, b"MODE %s +b" % c, b"NAMES " + c, b"PART " + c,
+                  b"JOIN " + c, b"PRIVMSG %s :probe" % c, b"WHO " + c, b"LIST " + c]
+        for n in nicks[:3]:
+            lines += [b"KICK %s %s" % (c, n), b"INVITE %s %s" % (n, c), b"MODE %s +o %s" % (c, n)]
+    for n in nicks:
+        lines += [b"WHOIS " + n, b"PRIVMSG %s :probe" % n, b"NICK " + n]
+    lines += [b"NICK zzprobe", b"QUIT :probe", b"LIST", b"AWAY :probe", b"WHO *"]
+    probes = []
+    for sid in sids:
+        for ln in lines:
+            probes.append({"k": "M", "id": last + 1, "ts": ts + 10 ** 9, "sid": sid, "cmid": 424242, "ra": b"10.9.9.9", "data": ln})
+    probes = probes[:limit]
+    if not probes:
+        return None
+    cs = [dict(case, entries=ents + [p]) for p in probes]
+    tr, _ = irclib.run_cases(cs, opts="-", tag="probe")
+    for c, t in zip(cs, tr):
+        if t.steps is None:
+            continue
+        for j, st in enumerate(t.steps):
+            if st.outcome.startswith("panic="):
+                where = (t.panics or {}).get(j)
+                return {"what": "panic %r at %s while applying %s after the history left the proved invariant at entry %d" % (
+                            irclib.unhx(st.outcome[6:])[:120], where, irclib.entry_text(c["entries"][j]) if j < len(c["entries"]) else "?", step),
+                        "step": j, "cases": [irclib.case_line(c)], "probes_tried": len(probes),
+                        "how_to_replay": "bin/check C06 --replay <this file>"}
+    return None
+
+
 def run_irc_check(ck, prop, prefix, replay, n_quick=120, n_thorough=2500, kinds=None, extra=None):
     ck.cov["trusted_base"] += IRC_TRUSTED
     ck.assumptions += IRC_ASSUMPTIONS
@@ -290,6 +342,15 @@ def run_irc_check(ck, prop, prefix, replay, n_quick=120, n_thorough=2500, kinds=
             cases.append(gen.history(ks[len(cases) % len(ks)]))
         if extra:
             cases += extra(gen)
+        if prop == "C03":
+            # every history is saved and loaded at its end (whatever it built up is compared field by field) and once
+            # somewhere in its second half (the continuation is compared with the run without save+load)
+            for c in cases[ncorp:]:
+                n_e = len(c["entries"])
+                if n_e > 8:
+                    c["entries"].insert(ck.rng.randint(n_e // 2, n_e - 1), {"k": "S"})
+                if c["entries"] and c["entries"][-1]["k"] != "S":
+                    c["entries"].append({"k": "S"})
     t0 = time.time()
     findings, infos = irc_smoke.check_cases(cases)
     go_wall = time.time() - t0
@@ -376,6 +437,25 @@ def run_irc_check(ck, prop, prefix, replay, n_quick=120, n_thorough=2500, kinds=
                            "occurrences": len(mine[sig]),
                            "how_to_replay": "bin/check %s --replay <this file>" % prop}, concrete=True)
     ck.notes["findings_on_nonconforming_services_lines_ignored"] = nonconf
+    if prop == "C06" and not ck.violations and not replay:
+        # the no-panic theorem rests on the invariant: where the implementation leaves it (an invariant monitor fired) or
+        # leaves the model (correspondence), search for the panic that now becomes possible
+        cand = []
+        for sig in sorted(others):
+            if sig.startswith("c14:"):
+                occ = [o for o in others[sig] if in_domain_finding(cases[o[0]], o[1])]
+                if occ:
+                    cand.append((occ[0][0], occ[0][1], sig))
+        cand += [(i, j, "correspondence") for (i, j, g, m) in mism[:2]]
+        tried = 0
+        for ci, step, why in cand[:4]:
+            tried += 1
+            hit = panic_probe_search(cases[ci], step)
+            if hit:
+                hit["found_after"] = why
+                ck.violation("c06:panic:probe", hit, concrete=True)
+                break
+        ck.notes["panic_probe_searches"] = tried
     if mism and not [x for x in ck.violations] and prop == "C01":
         # search for a concrete failing input: the same history with every timestamp moved by the same amount must
         # produce the same replies (all uses of time in the state machine are differences of entry timestamps); a
